@@ -423,9 +423,9 @@ func zzC15Convert(seg []byte, colon, at bool) {
 			}
 			if !inWord && !(at && done) {
 				seg[i] = zzC15UpperTbl[b&0x7f]
-				if 'a' <= b && b <= 'z' || 'A' <= b && b <= 'Z' {
-					done = true
-				}
+				// the first word is the first run of alphanumerics (string-capitalize),
+				// also when it starts with a digit: "3rd place" -> "3rd place"
+				done = true
 			} else {
 				seg[i] = zzC15LowerTbl[b&0x7f]
 			}
